@@ -41,6 +41,20 @@ theorem sequence_is_sum [Field α] [LinearOrder α] (am : Atom → α) (t : Tabl
     apply List.map_congr_left
     intro p _; rw [molecule_dmass]
 
+/-- the natural formula (labile H[1] written as H) is likewise the sum of the residues' natural
+    formulas -/
+theorem natural_formula_is_sum [Field α] [LinearOrder α] (am : Atom → α) (t : Table α)
+    (s : List Char) (m : Mol α) (h : sequence am t s = some m) :
+    ∃ parts, lookupAll t (clean s) = some parts ∧
+      ∀ b, lookupD m.natural.atoms b
+        = (parts.map fun p => lookupD (molecule am p.struct p.vol p.charge).natural.atoms b).sum := by
+  obtain ⟨parts, hl, rfl⟩ := sequence_some am t s m h
+  refine ⟨parts, hl, fun b => ?_⟩
+  rw [natural_counts, seq_flatMass]
+  congr 1
+  apply List.map_congr_left
+  intro p _; rw [natural_counts]
+
 /-- a code that is not in the table makes the constructor raise (`KeyError`), and only that -/
 theorem sequence_rejects_iff_unknown_code [Field α] [LinearOrder α] (am : Atom → α) (t : Table α)
     (s : List Char) : sequence am t s = none ↔ ∃ c ∈ clean s, t.find c = none := by
